@@ -373,19 +373,36 @@ pub fn stages_of(term: &str, shape: &str) -> usize {
     maps + if term == "fe" || term == "tfe" { 1 } else { 0 }
 }
 
-/// build the real top-level future; the source is scripted child 0
-pub fn build_co(term: &str, shape: &str, takes: &[usize], limits: &[usize]) -> Top {
+/// build the real top-level future.  `vec_items = None`: the source is scripted child 0 through
+/// `.co()`; `Some(j)`: the source is `Vec::into_co_stream()` over `j` items (its polls are not
+/// observable: the driver reconstructs them, see Fc/CoText.lean `withHiddenSource`)
+pub fn build_co(term: &str, shape: &str, takes: &[usize], limits: &[usize], vec_items: Option<usize>) -> Top {
     CO.with(|c| {
         *c.borrow_mut() =
             CoCtx { stages: stages_of(term, shape), next_stage: 0, takes: takes.to_vec(), limits: limits.to_vec() }
     });
-    let src = SStream(0).co();
-    match term {
-        "fe" => plain_shapes!(run_for_each, shape, src),
-        "tfe" => plain_shapes!(run_try_for_each, shape, src),
-        "cv" => plain_shapes!(run_collect, shape, src),
-        "cr" => res_shapes!(shape, src),
-        other => panic!("unknown terminal {other}"),
+    match vec_items {
+        None => {
+            let src = SStream(0).co();
+            match term {
+                "fe" => plain_shapes!(run_for_each, shape, src),
+                "tfe" => plain_shapes!(run_try_for_each, shape, src),
+                "cv" => plain_shapes!(run_collect, shape, src),
+                "cr" => res_shapes!(shape, src),
+                other => panic!("unknown terminal {other}"),
+            }
+        }
+        Some(j) => {
+            let items: Vec<Tagged> = (0..j).map(|i| Tagged(item_id(i))).collect();
+            let src = items.into_co_stream();
+            match term {
+                "fe" => plain_shapes!(run_for_each, shape, src),
+                "tfe" => plain_shapes!(run_try_for_each, shape, src),
+                "cv" => plain_shapes!(run_collect, shape, src),
+                "cr" => res_shapes!(shape, src),
+                other => panic!("unknown terminal {other}"),
+            }
+        }
     }
 }
 
